@@ -34,6 +34,12 @@ def run(tier, v, wd, replay=None):
     r = vlib.tlc(wd, "DialProbe", "DialProbe_gen.cfg", emit_to=pfile, timeout=900)
     v.add_tlc(r)
     run_vectors(v, wd, repo, "./control/", "TestVerifC18Probe", pfile, tags="verif,dae_stub_ebpf", timeout=900, outname="out-probe.json")
+    # "resolved through dae": the knowledge kept next to the DNS cache, per record type and upstream scope (DnsKnowledge.tla)
+    kfile = os.path.join(wd.path, "c18know.ndjson")
+    kn = 3000 if tier == "quick" else 40000
+    r = vlib.tlc(wd, "DnsKnowledge", "DnsKnowledge_gen.cfg", emit_to=kfile, simulate={"num": kn}, depth=10, workers=4, timeout=900, max_emit=kn)
+    v.add_tlc(r)
+    run_vectors(v, wd, repo, "./control/", "TestVerifC18Knowledge", kfile, tags="verif,dae_stub_ebpf", timeout=900, outname="out-know.json")
     v.coverage["exhaustive"] = True
     v.assumptions += ["'resolved through dae' is injected as an unexpired DNS-knowledge entry, 'verified' through the real-domain set, 'negative' through the negative cache",
                       "rerouting in plain domain mode is not constrained (the property is silent; the code reroutes genuine names)",
